@@ -25,14 +25,14 @@ Ordered(M) ==
                [lv \in { M.cp[c] : c \in { c \in DOMAIN M.cp : SubSeq(c, 1, M.n - 1) = p } } |->
                   SetToSeq({ c[M.n] : c \in { c \in DOMAIN M.cp : SubSeq(c, 1, M.n - 1) = p /\ M.cp[c] = lv } })]]]
 
-VARIABLES M, T, round, st, memo, out, phase
-vars == <<M, T, round, st, memo, out, phase>>
+VARIABLES M, T, round, st, memo, out, phase, resumed
+vars == <<M, T, round, st, memo, out, phase, resumed>>
 EmptyMemo == [k \in {} |-> <<>>]
 
 Init == /\ M \in PModels /\ T \in 0..MaxLv /\ round = 1
         /\ memo = EmptyMemo /\ out = <<>>
         /\ st = MCInit(Ordered(M), T, FixFirst)
-        /\ phase = "run"
+        /\ phase = "run" /\ resumed = FALSE
 
 Step == /\ phase = "run" /\ ~st.raised
         /\ LET r == MCNext(Ordered(M), st, memo) IN
@@ -40,16 +40,22 @@ Step == /\ phase = "run" /\ ~st.raised
              /\ st' = [st EXCEPT !.mc = r.mc]
              /\ IF r.g = None THEN phase' = "exhausted" /\ UNCHANGED out
                 ELSE out' = Append(out, r.g) /\ UNCHANGED phase
-        /\ UNCHANGED <<M, T, round>>
+        /\ UNCHANGED <<M, T, round, resumed>>
+
+(* C15: the user quits between two guesses; save_session pickles target level, both cursors and the parse tree,
+   a new process loads them into a fresh MarkovCracker with a fresh Optimizer (empty memo) and goes on *)
+SaveAndResume == /\ phase = "run" /\ ~st.raised /\ ~resumed /\ out # <<>>
+                 /\ memo' = EmptyMemo /\ resumed' = TRUE
+                 /\ UNCHANGED <<M, T, round, st, out, phase>>
 
 (* the same Optimizer is handed to the next MarkovCracker (PcfgGrammar.omen_optimizer) *)
 NextLevel == /\ phase = "exhausted" /\ round < Rounds
              /\ \E t2 \in 0..MaxLv :
                    /\ T' = t2 /\ st' = MCInit(Ordered(M), t2, FixFirst)
-             /\ round' = round + 1 /\ out' = <<>> /\ phase' = "run"
+             /\ round' = round + 1 /\ out' = <<>> /\ phase' = "run" /\ resumed' = FALSE
              /\ UNCHANGED <<M, memo>>
 
-Next == Step \/ NextLevel
+Next == Step \/ NextLevel \/ SaveAndResume
 Spec == Init /\ [][Next]_vars
 
 (* C10 *)
